@@ -1,7 +1,7 @@
 package main
 
 import (
-	"errors"
+	"syscall"
 	"fmt"
 	"strings"
 )
@@ -213,14 +213,14 @@ func (k *simKernel) mount(src, tgt, fstype string, flags uintptr, data string) e
 	f := int(flags)
 	if f&msRemount != 0 || (f/131072)%16 != 0 {
 		if k.mountedAt(tgt) == nil {
-			return errors.New("EINVAL")
+			return syscall.EINVAL
 		}
 		return nil
 	}
 	if f&msBind != 0 {
 		m := k.resolve(src)
 		if m == nil {
-			return errors.New("ENODEV")
+			return syscall.ENODEV
 		}
 		snapshot := append([]kmnt(nil), k.mnts...)
 		top := m.ID
@@ -268,12 +268,12 @@ func (k *simKernel) umount(tgt string, flags int) error {
 	k.syslog = append(k.syslog, []interface{}{"umount", hx(tgt), float64(flags)})
 	m := k.mountedAt(tgt)
 	if m == nil {
-		return errors.New("EINVAL")
+		return syscall.EINVAL
 	}
 	id := m.ID
 	for _, c := range k.mnts {
 		if c.Parent == id {
-			return errors.New("EBUSY")
+			return syscall.EBUSY
 		}
 	}
 	out := k.mnts[:0:0]
